@@ -26,6 +26,14 @@ Definition c14_impl_run (junk : N) (dst src : list N) (table : list (list N)) (s
   | Some (s, out) => Some (mode_code (st_mode replay s), out, rev (snd (st_codec replay s)), length (fst (st_codec replay s)))
   | None => None
   end.
+(** impl with source()/dest() between segments: (dst, src, items) per segment *)
+Definition c14_impl_run_segments (junk : N) (table : list (list N)) (segs : list (list N * list N * list item))
+  : option (N * list N * list (list Z) * nat) :=
+  match run_segments (fun _ => junk) replay replay_encode (minit (fun _ => junk) replay (table, []))
+                     (map (fun g => match g with (d, s, it) => (encode_callsign d, encode_callsign s, it) end) segs) with
+  | Some (s, out) => Some (mode_code (st_mode replay s), out, rev (snd (st_codec replay s)), length (fst (st_codec replay s)))
+  | None => None
+  end.
 Definition c14_impl_callsign := encode_callsign.
 Definition c14_impl_lsf (dst src : list N) : list N := build_lsf (encode_callsign dst) (encode_callsign src).
 Definition c14_impl_lsf_frame (junk : N) (lsf : list N) : list N := output_frame ConstsModulator.sync_lsf (lsf_frame (fun _ => junk) lsf).
@@ -46,5 +54,5 @@ Definition c14_spec_crc := m17_crc.
 Definition c14_queue_run (blocks : bool) (cap : nat) (bytes : list N) (trace : list actor) : qstate :=
   qrun (if blocks then Blocks else ReturnsFalse) cap bytes trace.
 
-Extraction "c14_model.ml" c14_impl_run c14_impl_callsign c14_impl_lsf c14_impl_lsf_frame c14_impl_stream_frame c14_queue_capacity
+Extraction "c14_model.ml" c14_impl_run c14_impl_run_segments c14_impl_callsign c14_impl_lsf c14_impl_lsf_frame c14_impl_stream_frame c14_queue_capacity
   c14_spec_address c14_spec_lsf c14_spec_lsf_frame c14_spec_stream_frame c14_spec_preamble c14_spec_keyup c14_spec_crc c14_queue_run.
